@@ -15,6 +15,10 @@ HEX_UNIVERSES = {
     "HS4": ["1001", "1002", "2001", "2002"],
     # keys of very different lengths in one trie, two of them longer than 32 bytes
     "HV": ["", "11" * 20, "11" * 33 + "12", "11" * 33 + "13"],
+    # two 28-byte keys differing in the first nibble: leaves with a 55-nibble path (node size 31/32 with a one-byte value)
+    "HT": ["", "1" * 56, "2" + "1" * 55],
+    # a key that is a proper prefix of two longer keys (branch with a value above two children)
+    "HP3": ["01", "0123", "0145"],
     "HW4": ["", "00", "70", "f0"],
     "H4b": ["12", "1234", "1235", "1245"],
     "HL": [
@@ -29,7 +33,10 @@ HEX_PROBES = ["10", "1230", "123450", "12345678", "1244ff", "20", "01", "ff", "1
 # value name -> length; the content is the seed's filler byte repeated
 VALUE_LEN = {"S": 1, "T26": 26, "T27": 27, "T28": 28, "T29": 29, "T30": 30, "L": 33, "X": 60, "M": 2, "V32": 32, "V55": 55, "V56": 56}
 # literal values whose bytes matter to RLP (single byte below / at 0x80) -- not relabelled by the seed
-VALUE_LITERAL = {"Z00": b"\x00", "B7f": b"\x7f", "B80": b"\x80", "Bff": b"\xff"}
+VALUE_LITERAL = {"Z00": b"\x00", "B7f": b"\x7f", "B80": b"\x80", "Bff": b"\xff",
+                 # values that coincide with the library's own sentinels (hash of the blank hexary root / of the empty string)
+                 "VBNH": bytes.fromhex("56e81f171bcc55a6ff8345e692c0f86e5b48e01b996cadc001622fb5e363b421"),
+                 "VBH": bytes.fromhex("c5d2460186f7233c927e7db2dcc703c0e500b653ca82273b7bfad8045d85a470")}
 
 
 class Labels:
